@@ -167,17 +167,13 @@ def feasible(name, box, p):
         return True
     if name in ("max_eq", "min_eq"):
         xs, y = box[:-1], box[-1]
+        # the result m must be a value of y that no argument is forced to exceed (max) / fall below (min) and that some
+        # argument can take: interval intersections only, so the cost does not depend on the width of the domains
         if name == "max_eq":
             lo = max(max(b[0] for b in xs), y[0])
-            for mval in range(lo, y[1] + 1):
-                if any(_has(b, mval) for b in xs):
-                    return True
-            return False
+            return any(max(lo, b[0]) <= min(y[1], b[1]) for b in xs)
         hi = min(min(b[1] for b in xs), y[1])
-        for mval in range(y[0], hi + 1):
-            if any(_has(b, mval) for b in xs):
-                return True
-        return False
+        return any(max(y[0], b[0]) <= min(hi, b[1]) for b in xs)
     if name == "max_leq":
         return max(b[0] for b in box[:-1]) <= box[-1][1]
     if name == "min_geq":
@@ -209,5 +205,76 @@ def hull(name, box, p):
             if feasible(name, trial, p):
                 break
             hi -= 1
+        out.append([lo, hi])
+    return out
+
+
+WIDE = SUPPORTED - {"gcc"}
+
+
+def _candidates(box, p, a, b):
+    """Values of [a, b] at which the feasibility of x_i = v can change for the piecewise-constant types: every bound of the
+    box, every parameter, every count / position 0..n and 0..len(p), each with its two neighbours - i.e. one representative of
+    every region between consecutive breakpoints plus the breakpoints themselves."""
+    raw = {a, b}
+    for l, h in box:
+        raw.add(l)
+        raw.add(h)
+    raw.update(p)
+    raw.update(range(-1, len(box) + 2))
+    raw.update(range(-1, len(p) + 2))
+    out = set()
+    for r in raw:
+        for v in (r - 1, r, r + 1):
+            if a <= v <= b:
+                out.add(v)
+    return sorted(out)
+
+
+def hull_wide(name, box, p):
+    """Exact bounds hull whose cost does not depend on the width of the domains. Linear inequalities: the feasibility of
+    x_i = v is monotone in v, so the extreme supported values follow by bisection. All other supported types are defined by
+    comparisons of values with bounds, parameters, counts and positions, so feasibility of x_i = v is constant between
+    consecutive breakpoints (see _candidates) and probing the candidates in order is exact. Cross-checked against the scanning
+    hull() and the enumerating O-hull wherever those apply."""
+    if name not in WIDE:
+        raise KeyError(name)
+    if not feasible(name, box, p):
+        return None
+    out = []
+    for i, (a, b) in enumerate(box):
+
+        def feas(v):
+            trial = list(box)
+            trial[i] = [v, v]
+            return feasible(name, trial, p)
+
+        if name in ("affine_leq", "affine_geq"):
+            lo, hi = a, b
+            if not feas(a):  # feasible values form a suffix of [a, b]
+                l, h = a, b  # feas(l) false, feas(h) true (the box is feasible, so an end of a monotone set is)
+                if not feas(b):
+                    raise AssertionError("linear feasibility is not monotone?")
+                while h - l > 1:
+                    m = (l + h) // 2
+                    if feas(m):
+                        h = m
+                    else:
+                        l = m
+                lo = h
+            if not feas(b):  # feasible values form a prefix
+                l, h = a, b
+                while h - l > 1:
+                    m = (l + h) // 2
+                    if feas(m):
+                        l = m
+                    else:
+                        h = m
+                hi = l
+            out.append([lo, hi])
+            continue
+        cands = _candidates(box[:i] + box[i + 1:], p, a, b)
+        lo = next(v for v in cands if feas(v))
+        hi = next(v for v in reversed(cands) if feas(v))
         out.append([lo, hi])
     return out
